@@ -9,7 +9,8 @@ from ..core import Report
 from .. import gen, tracer
 from . import runlevel
 
-KINDS_ALL = ["raise", "nan", "posinf", "neginf", "complex", "vector", "none"]
+KINDS_ALL = ["raise", "raise_noargs", "raise_assert", "raise_keyerror", "nan", "posinf", "neginf", "complex", "vector", "none"]
+EXC_OF = {"raise": "InjectedFault", "raise_noargs": "InjectedFault", "raise_assert": "AssertionError", "raise_keyerror": "KeyError"}
 KINDS_HE = ["notpair", "sdzero", "sdneg", "sdnan", "sdinf"]
 SITE = "function_logger.py:__call__ / bads.py target call sites"
 
@@ -60,7 +61,7 @@ def run(ctx):
         ks, calls = positions(t, rng, ctx.tier)
         kinds = KINDS_ALL + (KINDS_HE if sp["mode"] == "he" else [])
         for k in ks:
-            use = kinds if ctx.tier != "quick" else rng.sample(kinds, min(len(kinds), 4)) + (["raise"] if "raise" not in kinds[:0] else [])
+            use = kinds if ctx.tier != "quick" else rng.sample(kinds, min(len(kinds), 4)) + [rng.choice(["raise", "raise_noargs", "raise_assert", "raise_keyerror"])]
             for kind in sorted(set(use)):
                 jobs.append((sp, {"fault": {k: kind}, "want": ("ctl",)}))
                 phase = next((e["phase"] + ("" if e["rec"] else "/norec") for e in calls if e["k"] == k), "?")
@@ -77,7 +78,7 @@ def run(ctx):
         stats["modes"][sp["mode"]] = stats["modes"].get(sp["mode"], 0) + 1
         tag = f"fault '{kind}' at target call #{k} (phase {phase}); {runlevel.spec_tag(sp)}"
         case = {"kind": "fault_run", "spec": sp, "fault": {str(k): kind}}
-        want_exc = "InjectedFault" if kind == "raise" else "ValueError"
+        want_exc = EXC_OF.get(kind, "ValueError")
         err = t["error"]
         calls = [e for kk, e in t["events"] if kk == "CALL"]
         ncalls = t["final"]["target_calls"]
@@ -145,7 +146,7 @@ def replay(ctx, data):
     t0 = tracer.run_traced(c["spec"], want=("ctl",))
     t = tracer.run_traced(c["spec"], fault=fault, want=("ctl",))
     k, kind = next(iter(fault.items()))
-    want_exc = "InjectedFault" if kind == "raise" else "ValueError"
+    want_exc = EXC_OF.get(kind, "ValueError")
     err = t["error"]
     case = c
     if err is None:
